@@ -2,30 +2,140 @@ package common
 
 import (
 	"reflect"
+	"sync"
 	"unsafe"
 )
 
-// TeleportSyncRing puts a fresh *ringz.SyncRing[T] (passed as pointer) into the private state
-// that k push/pop pairs would leave: head = tail = k and every slot's sequence number set to the
-// next position that maps to it. Returns false if the private fields are not found.
+// TeleportSyncRing puts a *ringz.SyncRing[T] (passed as pointer, freshly initialised) into the
+// private state that k push/pop pairs would leave: both position counters = k and every slot's
+// sequence number set to the next position that maps to it. It returns false — and changes
+// nothing — when the private representation is not of the expected shape.
+//
+// The representation is DISCOVERED, not named: on a scratch ring of the same type (Init(4)), the
+// counter that a Push advances is the tail, the one a Pop advances the head, and the per-slot
+// sequence numbers are the uint32 values (a field of the slot struct, or a []uint32 next to the
+// slots) that read 0,1,2,3 after Init. Renaming or reordering private fields, or splitting the
+// slot array, therefore does not disable the 2^32 families. The harnesses still bind the result to
+// the code by comparing teleport(k) with k honest push/pop pairs for small k.
 func TeleportSyncRing(ring any, k uint32) bool {
-	v := reflect.ValueOf(ring).Elem()
-	head, tail, values, mask := v.FieldByName("head"), v.FieldByName("tail"), v.FieldByName("values"), v.FieldByName("mask")
-	if !head.IsValid() || !tail.IsValid() || !values.IsValid() || !mask.IsValid() || head.Kind() != reflect.Uint32 || tail.Kind() != reflect.Uint32 || values.Kind() != reflect.Slice {
+	pv := reflect.ValueOf(ring)
+	if pv.Kind() != reflect.Pointer || pv.Elem().Kind() != reflect.Struct {
 		return false
 	}
-	m := uint32(mask.Uint())
-	for i := 0; i < values.Len(); i++ {
-		pos := values.Index(i).FieldByName("pos")
-		if !pos.IsValid() || pos.Kind() != reflect.Uint32 {
-			return false
-		}
+	lay := ringLayoutOf(pv.Type())
+	if lay == nil {
+		return false
 	}
-	*(*uint32)(unsafe.Pointer(head.UnsafeAddr())) = k
-	*(*uint32)(unsafe.Pointer(tail.UnsafeAddr())) = k
-	for i := 0; i < values.Len(); i++ {
-		pos := values.Index(i).FieldByName("pos")
-		*(*uint32)(unsafe.Pointer(pos.UnsafeAddr())) = k + ((uint32(i) - k) & m)
+	v := pv.Elem()
+	seqs := v.Field(lay.seqSlice)
+	n := seqs.Len()
+	if n == 0 || n&(n-1) != 0 {
+		return false
+	}
+	m := uint32(n - 1)
+	setU32(v.Field(lay.head), k)
+	setU32(v.Field(lay.tail), k)
+	for i := 0; i < n; i++ {
+		e := seqs.Index(i)
+		if lay.seqField >= 0 {
+			e = e.Field(lay.seqField)
+		}
+		setU32(e, k+((uint32(i)-k)&m))
 	}
 	return true
+}
+
+func setU32(f reflect.Value, x uint32) { *(*uint32)(unsafe.Pointer(f.UnsafeAddr())) = x }
+
+type ringLayout struct {
+	head, tail int // indices of the uint32 counters
+	seqSlice   int // index of the slice that holds the sequence numbers
+	seqField   int // field of the slot struct, or -1 when the slice is a []uint32
+}
+
+var (
+	ringLayouts  = map[reflect.Type]*ringLayout{}
+	ringLayoutMu sync.Mutex
+)
+
+func ringLayoutOf(ptr reflect.Type) (lay *ringLayout) {
+	ringLayoutMu.Lock()
+	defer ringLayoutMu.Unlock()
+	if l, ok := ringLayouts[ptr]; ok {
+		return l
+	}
+	defer func() {
+		if recover() != nil {
+			lay = nil
+		}
+		ringLayouts[ptr] = lay
+	}()
+	scratch := reflect.New(ptr.Elem())
+	initM, push, pop := scratch.MethodByName("Init"), scratch.MethodByName("Push"), scratch.MethodByName("Pop")
+	if !initM.IsValid() || !push.IsValid() || !pop.IsValid() || push.Type().NumIn() != 1 {
+		return nil
+	}
+	initM.Call([]reflect.Value{reflect.ValueOf(4)})
+	v := scratch.Elem()
+	var u32 []int
+	for i := 0; i < v.NumField(); i++ {
+		if v.Field(i).Kind() == reflect.Uint32 {
+			u32 = append(u32, i)
+		}
+	}
+	snap := func() []uint64 {
+		out := make([]uint64, len(u32))
+		for j, i := range u32 {
+			out[j] = v.Field(i).Uint()
+		}
+		return out
+	}
+	changed := func(a, b []uint64) int {
+		idx := -1
+		for j := range a {
+			if a[j] != b[j] {
+				if idx >= 0 || b[j] != a[j]+1 {
+					return -1
+				}
+				idx = u32[j]
+			}
+		}
+		return idx
+	}
+	l := &ringLayout{seqSlice: -1, seqField: -1}
+	// sequence numbers: read 0,1,2,3 on a fresh ring of capacity 4
+	for i := 0; i < v.NumField() && l.seqSlice < 0; i++ {
+		f := v.Field(i)
+		if f.Kind() != reflect.Slice || f.Len() != 4 {
+			continue
+		}
+		switch f.Type().Elem().Kind() {
+		case reflect.Uint32:
+			if f.Index(0).Uint() == 0 && f.Index(1).Uint() == 1 && f.Index(2).Uint() == 2 && f.Index(3).Uint() == 3 {
+				l.seqSlice = i
+			}
+		case reflect.Struct:
+			for q := 0; q < f.Type().Elem().NumField(); q++ {
+				if f.Type().Elem().Field(q).Type.Kind() != reflect.Uint32 {
+					continue
+				}
+				if f.Index(0).Field(q).Uint() == 0 && f.Index(1).Field(q).Uint() == 1 && f.Index(2).Field(q).Uint() == 2 && f.Index(3).Field(q).Uint() == 3 {
+					l.seqSlice, l.seqField = i, q
+				}
+			}
+		}
+	}
+	if l.seqSlice < 0 {
+		return nil
+	}
+	s0 := snap()
+	push.Call([]reflect.Value{reflect.Zero(push.Type().In(0))})
+	s1 := snap()
+	pop.Call(nil)
+	s2 := snap()
+	l.tail, l.head = changed(s0, s1), changed(s1, s2)
+	if l.tail < 0 || l.head < 0 || l.tail == l.head {
+		return nil
+	}
+	return l
 }
